@@ -43,6 +43,12 @@ def _is_find_call(n):
     return isinstance(n, ast.Call) and ast.unparse(n.func) == "self.find_column" and 1 <= len(n.args) <= 2 and not n.keywords
 
 
+# what a column carries besides its name and aliases: in the functions that look columns up *by name* these are not
+# names; the translation reads them through the parameter `T : ColText ι ν` (`T.attr "identity" column`)
+COL_TEXT_ATTRS = {"identity", "description", "type", "element_type", "origin", "default", "disposition", "expectations", "nullable",
+                  "length", "precision", "scale", "highest_value", "lowest_value", "null_count"}
+
+
 def _hook_factory(state):
     """`state`: a dict the statement hooks write to (`key_kind`: what the argument of `column(i)` is known to be)."""
     def hook(n, go):
@@ -63,6 +69,16 @@ def _hook_factory(state):
                 if x in state.get("int_of", {}):
                     return state["int_of"][x]
                 raise Untranslatable("int(%s) outside a statement the translator can guard" % x)
+        if state.get("strops"):
+            ex_ = state["ex"]
+            # column.identity, column.description, str(column), repr(column) … where columns are looked up by name
+            if isinstance(n, ast.Attribute) and n.attr in COL_TEXT_ATTRS and isinstance(n.value, ast.Name) \
+                    and (n.value.id in ex_.bound or n.value.id in ex_.records) and n.value.id not in ("self", "other"):
+                return "(T.attr %s %s)" % (lean_str(n.attr), go(n.value))
+            if isinstance(n, ast.Call) and isinstance(n.func, ast.Name) and n.func.id in ("str", "repr") and len(n.args) == 1 and not n.keywords \
+                    and isinstance(n.args[0], ast.Name) and n.args[0].id in ex_.bound and n.args[0].id not in state.get("key_kind", {}) \
+                    and n.args[0].id not in ("column_name",):
+                return "(T.attr %s %s)" % (lean_str("__%s__" % n.func.id), go(n.args[0]))
         # column.all_names  ->  the generated all_names applied to the column
         if isinstance(n, ast.Attribute) and n.attr == "all_names":
             return "(all_names %s)" % go(n.value)
@@ -80,7 +96,7 @@ def _hook_factory(state):
             a = n.args[0]
             if isinstance(a, ast.Name) and state.get("key_kind", {}).get(a.id) == "int":
                 return "none"  # an int is never among the names: `5 in column.all_names` is False for every column
-            return "(find_column S %s self_ %s %s)" % (low, go(a), ci)
+            return "(find_column S T %s self_ %s %s)" % (low, go(a), ci)
         # properties / methods of the schema that are generated too
         if isinstance(n, ast.Attribute) and ast.unparse(n) in ("self.column_names", "self.num_columns"):
             return "(%s self_)" % n.attr
@@ -151,7 +167,8 @@ def t_find_column(sch):
         raise Untranslatable("find_column%r" % (args,))
     ex = _ex(has_lower=True, strops=True)
     return pystmt.function(fn, "find_column",
-                           [(None, "(S : StrOps ν)"), (None, "(lower : ν → ν)"), (None, "(self_ : Schema ι ν)"), ("column_name", "(column_name : ν)"),
+                           [(None, "(S : StrOps ν)"), (None, "(T : ColText ι ν)"), (None, "(lower : ν → ν)"), (None, "(self_ : Schema ι ν)"),
+                            ("column_name", "(column_name : ν)"),
                             ("case_insensitive", "(case_insensitive : Bool)")],
                            "Option (Col ι ν)", ex, ret=_opt_ret, k="none", fold_redex=True)
 
@@ -171,7 +188,8 @@ def t_pop_column(sch):
             i = ex.go(v.args[0])
             return "((%s)[%s]?, (%s).eraseIdx %s)" % (cols, i, cols, i)
         return "(%s, %s)" % (_opt_ret(v, ex), cols)
-    return pystmt.function(fn, "pop_column", [(None, "(S : StrOps ν)"), (None, "(self_ : Schema ι ν)"), ("column_name", "(column_name : ν)")],
+    return pystmt.function(fn, "pop_column", [(None, "(S : StrOps ν)"), (None, "(T : ColText ι ν)"), (None, "(self_ : Schema ι ν)"),
+                                                     ("column_name", "(column_name : ν)")],
                            "Option (Col ι ν) × List (Col ι ν)", ex, ret=ret, k=lambda ex: "(none, %s)" % ex.env["self.columns"],
                            mutable=MUTABLE, fold_redex=True)
 
@@ -198,6 +216,81 @@ def t_num_columns(sch):
 def t_iter(sch):
     fn = sch.func("__iter__", "RelationSchema")
     return pystmt.function(fn, "iter_names", [(None, "(self_ : Schema ι ν)")], "List ν", _ex(), ret=lambda v, ex: ex.go(v), k="[]", fold_redex=True)
+
+
+def t_iter_src(sch):
+    """`__iter__` as the *iterator* it builds (`IterSrc`): an iterator over a list made when `__iter__` is called
+    (`.eager names`: a snapshot nobody else can reach) or a lazy walk over the schema's own column list (`.walk item`:
+    a generator expression, `map`, a `for … yield` body), which reads `self.columns[pos]` only when asked for the next
+    name -- so a removal between two steps shows through.  `iter_names` above is what an uninterrupted iteration lists;
+    this is what an interrupted one does."""
+    fn = sch.func("__iter__", "RelationSchema")
+    if [a.arg for a in fn.args.args] != ["self"]:
+        raise Untranslatable("__iter__ signature")
+    body = [b for b in fn.body if not (isinstance(b, ast.Expr) and isinstance(b.value, ast.Constant))]
+    ex = _ex()
+
+    def walk(target, elt, it, ifs=()):
+        if ast.unparse(it) != "self.columns":
+            raise Untranslatable("a lazy walk over %s" % ast.unparse(it))
+        if ifs:
+            raise Untranslatable("a filtered lazy walk")
+        if not isinstance(target, ast.Name):
+            raise Untranslatable("a lazy walk with the target %s" % ast.unparse(target))
+        saved = ex.typestate()
+        ex.bound.add(target.id)
+        try:
+            e = ex.go(elt)
+        finally:
+            ex.restore(saved)
+        return ".walk (fun %s => %s)" % (target.id, e)
+
+    def lazy(e):
+        if isinstance(e, ast.GeneratorExp) and len(e.generators) == 1 and not e.generators[0].is_async:
+            g = e.generators[0]
+            return walk(g.target, e.elt, g.iter, g.ifs)
+        if isinstance(e, ast.Call) and isinstance(e.func, ast.Name) and e.func.id == "map" and len(e.args) == 2 and not e.keywords \
+                and isinstance(e.args[0], ast.Lambda):
+            a = e.args[0].args
+            if len(a.args) == 1 and not (a.posonlyargs or a.kwonlyargs or a.vararg or a.kwarg or a.defaults):
+                return walk(ast.Name(id=a.args[0].arg, ctx=ast.Load()), e.args[0].body, e.args[1])
+        return None
+
+    def own_list(e):
+        """an expression that builds a list nobody else holds"""
+        if isinstance(e, (ast.ListComp, ast.List)):
+            return True
+        if isinstance(e, ast.BinOp) and isinstance(e.op, ast.Add):
+            return True
+        if isinstance(e, ast.Call) and isinstance(e.func, ast.Name) and e.func.id in ("list", "sorted", "tuple") and not e.keywords:
+            return True
+        if isinstance(e, ast.Subscript) and isinstance(e.slice, ast.Slice):
+            return True
+        return ast.unparse(e) in ("self.column_names", "self.all_column_names()")
+
+    sig = "def iter_src (self_ : Schema ι ν) : IterSrc ι ν :=\n  %s\n"
+    inner = [n for b in body for n in ast.walk(b)]
+    if any(isinstance(n, (ast.Yield, ast.YieldFrom)) for n in inner):
+        if len(body) == 1 and isinstance(body[0], ast.For) and not body[0].orelse and len(body[0].body) == 1 \
+                and isinstance(body[0].body[0], ast.Expr) and isinstance(body[0].body[0].value, ast.Yield) \
+                and body[0].body[0].value.value is not None:
+            return sig % walk(body[0].target, body[0].body[0].value.value, body[0].iter)
+        raise Untranslatable("__iter__ is a generator function of a shape the translator does not know")
+    if len(body) != 1 or not isinstance(body[0], ast.Return) or body[0].value is None:
+        raise Untranslatable("__iter__ is not a single return")
+    e = body[0].value
+    if isinstance(e, ast.Call) and isinstance(e.func, ast.Name) and e.func.id == "iter" and len(e.args) == 1 and not e.keywords:
+        e = e.args[0]
+        term = lazy(e)
+        if term is None:
+            if not own_list(e):
+                raise Untranslatable("iter(%s): not known to be a list of its own" % ast.unparse(e))
+            term = ".eager (%s)" % ex.go(e)
+    else:
+        term = lazy(e)
+        if term is None:
+            raise Untranslatable("__iter__ returns %s" % ast.unparse(e))
+    return sig % term
 
 
 def t_column(sch):
@@ -407,7 +500,7 @@ def t_column(sch):
             raise Untranslatable("%s used before its type is tested" % arg)
         return real_go(n)
     ex.go = go
-    return pystmt.function(fn, "column", [(None, "(S : StrOps ν)"), (None, "(self_ : Schema ι ν)"), (arg, "(%s : Key ν)" % arg)],
+    return pystmt.function(fn, "column", [(None, "(S : StrOps ν)"), (None, "(T : ColText ι ν)"), (None, "(self_ : Schema ι ν)"), (arg, "(%s : Key ν)" % arg)],
                            "Except String (Out ι ν)", ex, ret=ret, k=".ok (.col none)", stmt_hook=stmt_hook, fold_redex=True)
 
 
@@ -442,7 +535,7 @@ def _pinned():
 # in dependency order: a later function may call an earlier one
 TRANSLATORS = (("all_names", t_all_names), ("column_names", t_column_names), ("all_column_names", t_all_column_names),
                ("num_columns", t_num_columns), ("find_column", t_find_column), ("column", t_column), ("pop_column", t_pop_column),
-               ("add", t_add), ("iter_names", t_iter))
+               ("add", t_add), ("iter_names", t_iter), ("iter_src", t_iter_src))
 
 
 # which translated functions each equivalence theorem of Props/C17.lean talks about, and how the battery
@@ -450,20 +543,22 @@ TRANSLATORS = (("all_names", t_all_names), ("column_names", t_column_names), ("a
 THEOREMS = {
     "generated_all_names_eq_model": (["all_names"], "checkAllNames (fun c => Gen.SchemaFns.all_names c)"),
     "generated_find_column_eq_model": (["find_column", "all_names"],
-                                       "checkFind (fun S lower s k ci => Gen.SchemaFns.find_column S lower s k ci)"),
-    "generated_column_eq_model": (["column", "find_column", "all_names"], "checkColumn (fun S s k => Gen.SchemaFns.column S s k)"),
-    "generated_pop_column_eq_model": (["pop_column", "find_column", "all_names"], "checkPop (fun S s k => Gen.SchemaFns.pop_column S s k)"),
+                                       "checkFind (fun S T lower s k ci => Gen.SchemaFns.find_column S T lower s k ci)"),
+    "generated_column_eq_model": (["column", "find_column", "all_names"], "checkColumn (fun S T s k => Gen.SchemaFns.column S T s k)"),
+    "generated_pop_column_eq_model": (["pop_column", "find_column", "all_names"], "checkPop (fun S T s k => Gen.SchemaFns.pop_column S T s k)"),
     "generated_add_eq_model": (["add"], "checkAdd (fun a b => Gen.SchemaFns.add a b)"),
     "generated_names_eq_model": (["column_names", "iter_names", "all_column_names", "num_columns", "all_names"],
                                  "checkNames (fun s => Gen.SchemaFns.column_names s) (fun s => Gen.SchemaFns.iter_names s) "
                                  "(fun s => Gen.SchemaFns.all_column_names s) (fun s => Gen.SchemaFns.num_columns s)"),
+    "generated_iter_eq_model": (["iter_src", "column_names", "all_column_names", "all_names"], "checkIter (fun s => Gen.SchemaFns.iter_src s)"),
 }
 
 # the functions a theorem is *about* (the others in its list are only called by them)
 PRIMARY = {"generated_all_names_eq_model": ["all_names"], "generated_find_column_eq_model": ["find_column"],
            "generated_column_eq_model": ["column"], "generated_pop_column_eq_model": ["pop_column"],
            "generated_add_eq_model": ["add"],
-           "generated_names_eq_model": ["column_names", "iter_names", "all_column_names", "num_columns"]}
+           "generated_names_eq_model": ["column_names", "iter_names", "all_column_names", "num_columns"],
+           "generated_iter_eq_model": ["iter_src"]}
 
 GEN_PRELUDE = ("/-! The schema operations of orso/schema.py, translated statement by statement (harness/pystmt.py). -/\n"
                "set_option linter.unusedVariables false\nopen _root_.SchemaOps\nnamespace Gen.SchemaFns\n"
